@@ -6,10 +6,40 @@ set_option linter.unusedVariables false
 
 namespace GeckoModel.Snapshot
 
-theorem fixQuotes_append (a b : Text) : fixQuotes (a ++ b) = fixQuotes a ++ fixQuotes b := by
-  induction a with
-  | nil => rfl
-  | cons c a ih => simp only [List.cons_append, fixQuotes]; split <;> simp [ih]
+/-- is a backslash pending after the text has been read by the tokenising replacement? -/
+def modeAfter : Bool → Text → Bool
+  | m, [] => m
+  | false, c :: s => modeAfter (c == bsl) s
+  | true, _ :: s => modeAfter false s
+
+/-- the replacement works unit by unit: after a text that ends outside an escape it starts afresh -/
+theorem fixQ_append (m : Bool) (a b : Text) (h : modeAfter m a = false) : fixQ m (a ++ b) = fixQ m a ++ fixQ false b := by
+  induction a generalizing m with
+  | nil => simp only [modeAfter] at h; subst h; simp [fixQ]
+  | cons c a ih =>
+    cases m with
+    | false =>
+      simp only [modeAfter] at h
+      simp only [List.cons_append, fixQ]
+      split
+      · rename_i hc; simp only [hc] at h; exact ih true h
+      · rename_i hc
+        have hc' : (c == bsl) = false := by simpa using hc
+        rw [hc'] at h
+        split <;> simp [ih false h]
+    | true =>
+      simp only [modeAfter] at h
+      simp only [List.cons_append, fixQ]
+      split <;> simp [ih false h]
+
+theorem esc_unit_sq : ∀ n, n < 256 → modeAfter false (escByte sq (UInt8.ofNat n)) = false := by decide +kernel
+theorem esc_unit_dq : ∀ n, n < 256 → modeAfter false (escByte dq (UInt8.ofNat n)) = false := by decide +kernel
+
+theorem esc_unit (q : Char) (hq : q = sq ∨ q = dq) (b : Byte) : modeAfter false (escByte q b) = false := by
+  have e : b = UInt8.ofNat b.toNat := by simp
+  rcases hq with rfl | rfl
+  · rw [e]; exact esc_unit_sq _ (UInt8.toNat_lt b)
+  · rw [e]; exact esc_unit_dq _ (UInt8.toNat_lt b)
 
 theorem escBytes_append (q : Char) (a b : List Byte) : escBytes q (a ++ b) = escBytes q a ++ escBytes q b := by
   simp [escBytes]
@@ -61,53 +91,54 @@ theorem unit_sound (u : Text) (b : Byte) (h : unitOK u b = true) (r : Text) :
         subst h
         simp [litRun, hx, hl, bsl, sq, dq]
 
-/-- the byte can be written inside quotes `q` without the escape the parser mis-reads -/
-def okByte (q : Char) (b : Byte) : Bool := !(q == sq && b == 0x27) && !(q == dq && b == 0x22)
+theorem unit_sq : ∀ n, n < 256 → unitOK (fixQuotes (escByte sq (UInt8.ofNat n))) (UInt8.ofNat n) = true := by decide +kernel
+theorem unit_dq : ∀ n, n < 256 → unitOK (fixQuotes (escByte dq (UInt8.ofNat n))) (UInt8.ofNat n) = true := by decide +kernel
 
-theorem unit_sq : ∀ n, n < 256 → okByte sq (UInt8.ofNat n) = true →
-    unitOK (fixQuotes (escByte sq (UInt8.ofNat n))) (UInt8.ofNat n) = true := by decide +kernel
-theorem unit_dq : ∀ n, n < 256 → okByte dq (UInt8.ofNat n) = true →
-    unitOK (fixQuotes (escByte dq (UInt8.ofNat n))) (UInt8.ofNat n) = true := by decide +kernel
-
-theorem unit_byte (q : Char) (hq : q = sq ∨ q = dq) (b : Byte) (h : okByte q b = true) :
-    unitOK (fixQuotes (escByte q b)) b = true := by
+/-- every byte, in either kind of literal, is written as one lexical unit that the replacement turns into a unit standing
+for the same byte (`\'` becomes `\x27` as a whole: the repair of D13) -/
+theorem unit_byte (q : Char) (hq : q = sq ∨ q = dq) (b : Byte) : unitOK (fixQuotes (escByte q b)) b = true := by
   have e : b = UInt8.ofNat b.toNat := by simp
   rcases hq with rfl | rfl
-  · rw [e] at h ⊢; exact unit_sq _ (UInt8.toNat_lt b) h
-  · rw [e] at h ⊢; exact unit_dq _ (UInt8.toNat_lt b) h
+  · rw [e]; exact unit_sq _ (UInt8.toNat_lt b)
+  · rw [e]; exact unit_dq _ (UInt8.toNat_lt b)
 
-/-- **segments**: every byte string whose rendering avoids the `\'` escape is read back exactly -/
-theorem litEval_escBytes (q : Char) (hq : q = sq ∨ q = dq) (bs : List Byte) (h : bs.all (okByte q) = true) (r : Text) :
+/-- **segments**: every byte string is read back exactly from its rendering, in either kind of literal -/
+theorem litEval_escBytes (q : Char) (hq : q = sq ∨ q = dq) (bs : List Byte) (r : Text) :
     litEval (fixQuotes (escBytes q bs) ++ r) = (litEval r).map (bs ++ ·) := by
   induction bs with
   | nil => show litEval r = _; cases litEval r <;> rfl
   | cons b bs ih =>
-    simp only [List.all_cons, Bool.and_eq_true] at h
-    rw [escBytes_cons, fixQuotes_append, List.append_assoc, unit_sound _ b (unit_byte q hq b h.1), ih h.2]
+    rw [escBytes_cons]
+    unfold fixQuotes at ih ⊢
+    rw [fixQ_append false _ _ (esc_unit q hq b), List.append_assoc]
+    have := unit_sound _ b (unit_byte q hq b) (fixQ false (escBytes q bs) ++ r)
+    unfold fixQuotes at this
+    rw [this, ih]
     cases litEval r <;> rfl
+
+/-- the rendering of a whole text of complete units leaves no escape pending -/
+theorem escBytes_mode (q : Char) (hq : q = sq ∨ q = dq) (bs : List Byte) : modeAfter false (escBytes q bs) = false := by
+  induction bs with
+  | nil => rfl
+  | cons b bs ih =>
+    rw [escBytes_cons]
+    have : ∀ (a c : Text), modeAfter false a = false → modeAfter false (a ++ c) = modeAfter false c := by
+      intro a c h
+      have gen : ∀ (m : Bool) (a : Text), modeAfter m a = false → modeAfter m (a ++ c) = modeAfter false c := by
+        intro m a
+        induction a generalizing m with
+        | nil => intro h; simp only [modeAfter] at h; subst h; rfl
+        | cons x a ih2 =>
+          intro h
+          cases m with
+          | false => simp only [modeAfter, List.cons_append] at h ⊢; exact ih2 _ h
+          | true => simp only [modeAfter, List.cons_append] at h ⊢; exact ih2 _ h
+      exact gen false a h
+    rw [this _ _ (esc_unit q hq b), ih]
 
 theorem quoteOf_cases (bs : List Byte) : quoteOf bs = sq ∨ quoteOf bs = dq := by
   unfold quoteOf; split
   · exact Or.inr rfl
   · exact Or.inl rfl
-
-/-- the rendering of `pkt` needs no `\'`: it does not contain both quote characters -/
-def QuoteSafe (pkt : List Byte) : Prop := ¬ (pkt.contains 0x27 = true ∧ pkt.contains 0x22 = true)
-
-instance (pkt : List Byte) : Decidable (QuoteSafe pkt) := by unfold QuoteSafe; exact inferInstance
-
-theorem okByte_of_quoteSafe (pkt : List Byte) (h : QuoteSafe pkt) (b : Byte) (hb : b ∈ pkt) : okByte (quoteOf pkt) b = true := by
-  unfold QuoteSafe at h
-  have m27 : b = 0x27 → pkt.contains 0x27 = true := by intro e; subst e; simpa using hb
-  have m22 : b = 0x22 → pkt.contains 0x22 = true := by intro e; subst e; simpa using hb
-  unfold okByte quoteOf
-  cases h1 : pkt.contains 0x27 <;> cases h2 : pkt.contains 0x22
-  · have : b ≠ 0x27 := fun e => by rw [m27 e] at h1; cases h1
-    simp [sq, dq, this]
-  · have : b ≠ 0x27 := fun e => by rw [m27 e] at h1; cases h1
-    simp [sq, dq, this]
-  · have : b ≠ 0x22 := fun e => by rw [m22 e] at h2; cases h2
-    simp [sq, dq, this]
-  · exact absurd ⟨h1, h2⟩ h
 
 end GeckoModel.Snapshot
